@@ -19,6 +19,7 @@ import (
 	"sort"
 	"strings"
 	"sync"
+	"syscall"
 	"time"
 
 	"github.com/pkg/sftp"
@@ -676,7 +677,8 @@ func xfStartPair(spec xfSrvSpec, cfg xfCfg, dir string) (*xfReal, error) {
 			return nil, r.err
 		}
 		p.Cli = r.c
-	case <-time.After(20 * time.Second):
+	case <-time.After(lib.HangWait(20 * time.Second)):
+		lib.SpendHang(xfClass(spec), lib.HangWait(20*time.Second))
 		c2sW.Close()
 		s2cW.Close()
 		return nil, errors.New("client handshake timed out")
@@ -733,10 +735,9 @@ func (p *xfReal) OpenHandles() int {
 
 func (p *xfReal) Shutdown() {
 	go p.Cli.Close() // closes the request stream; waits for the client's receiver
-	select {
-	case <-p.done:
-	case <-time.After(5 * time.Second):
-	}
+	// a clean-up wait, not an oracle: it comes out of the hang budget (so that a server that never returns costs a
+	// bounded amount of time) under a class of its own, which stops no case
+	lib.WaitCleanup(xfClass(p.Spec), 5*time.Second, p.done)
 	p.s2cW.Close()
 	p.c2sR.Close()
 }
@@ -1129,19 +1130,24 @@ func (t *xfFrameTap) Take() []xfTapRec {
 var xfErrHang = errors.New("no return within 20 s")
 
 // xfGuard runs f and reports false when it did not return within 20 s (the goroutine is abandoned).
-func xfGuard(f func()) (ok bool, panicked any) {
+func xfGuard(f func()) (ok bool, panicked any) { return xfGuardK(nil, f) }
+
+// xfGuardK is xfGuard for a call of case k: the 20 s come out of the run's hang budget (lib/budget.go) and are
+// charged to the case's class when they pass; once the case has hung, its remaining calls get a short deadline.
+func xfGuardK(k *lib.Case, f func()) (ok bool, panicked any) {
 	done := make(chan any, 1)
 	go func() {
 		defer func() { done <- recover() }()
 		f()
 	}()
-	select {
-	case p := <-done:
-		return true, p
-	case <-time.After(20 * time.Second):
-		return false, nil
-	}
+	p, ok := lib.WaitCase(k, 20*time.Second, done)
+	return ok, p
 }
+
+// xfProp is the property this process checks; with the server kind it is the hang class of a case.
+var xfProp = "xfer"
+
+func xfClass(spec xfSrvSpec) string { return xfProp + "/" + spec.String() }
 
 // xfHangBudget bounds what hangs may cost a run: every hang is a failure of its own and takes 20 s to declare; after
 // xfHangLimit of them against one server kind the remaining cases against that kind are not run (and that is said).
@@ -1164,7 +1170,7 @@ func (h *xfHangBudget) Add(spec xfSrvSpec) {
 func (h *xfHangBudget) Spent(spec xfSrvSpec) bool {
 	h.mu.Lock()
 	defer h.mu.Unlock()
-	return h.n[spec.String()] >= xfHangLimit
+	return h.n[spec.String()] >= xfHangLimit || lib.Stop(xfClass(spec)) // … or the run's own budgets say so (and count the case)
 }
 
 func (h *xfHangBudget) Report(r *lib.Result) {
@@ -1290,6 +1296,7 @@ func xfInflight(slot int, v any) {
 }
 
 func xfInChild(c *lib.Ctx, id string, body func(c *lib.Ctx)) {
+	xfProp = id
 	if p := os.Getenv("VH_XFER_INFLIGHT"); p != "" {
 		// we are the child
 		if f, err := os.OpenFile(p, os.O_RDWR, 0); err == nil {
@@ -1336,13 +1343,37 @@ func xfInChild(c *lib.Ctx, id string, body func(c *lib.Ctx)) {
 	}
 	done := make(chan error, 1)
 	go func() { done <- cmd.Wait() }()
+	// if this process is told to stop, the child is told first and its partial result brought in (main writes it)
+	cancelHook := lib.OnInterrupt(func() {
+		cmd.Process.Signal(syscall.SIGTERM)
+		select {
+		case <-done:
+		case <-time.After(8 * time.Second):
+			cmd.Process.Kill()
+		}
+		for _, f := range []string{outFile, outFile + ".partial"} {
+			if b, err := os.ReadFile(f); err == nil && c.R.Absorb(b) == nil {
+				break
+			}
+		}
+	})
+	defer cancelHook()
+	defer lib.KeepAlive()() // the child has a watchdog of its own and is bounded by `limit`
+	// the child lives on this run's budgets and ends by itself when the soft deadline passes; the kill is the backstop
+	limit = max(time.Minute, min(limit, lib.Remaining()+2*time.Minute))
 	var runErr error
 	select {
 	case runErr = <-done:
 	case <-time.After(limit):
-		cmd.Process.Kill()
-		runErr = fmt.Errorf("killed after %v", limit)
-		<-done
+		// ask first, so that the child writes what it has found (exit status 4), then kill
+		cmd.Process.Signal(syscall.SIGTERM)
+		select {
+		case <-done:
+		case <-time.After(10 * time.Second):
+			cmd.Process.Kill()
+			<-done
+		}
+		runErr = fmt.Errorf("stopped after %v", limit)
 	}
 	if b, err := os.ReadFile(outFile); err == nil && runErr == nil {
 		seed, tier := c.R.Seed, c.R.Tier
@@ -1374,6 +1405,13 @@ func xfInChild(c *lib.Ctx, id string, body func(c *lib.Ctx)) {
 		key = "crash/panic-in-package-goroutine"
 	}
 	c.R.Rule = "the check ran in a child process which died; see the failure"
+	// what the child had found before it died: its result file (written on SIGTERM) or its last checkpoint
+	for _, f := range []string{outFile, outFile + ".partial"} {
+		if b, err := os.ReadFile(f); err == nil && c.R.Absorb(b) == nil {
+			c.R.Note("the child process running the check died (%v); the failures above it are those it had recorded by then", runErr)
+			break
+		}
+	}
 	c.R.Fail(lib.Failure{Kind: "oracle", Key: key, What: fmt.Sprintf("the process running the check died (%v); a panic or fatal error outside the calling goroutine cannot be recovered. The cases in flight are given as input (one of them triggered it); stderr is in `actual`", runErr),
 		Input: map[string]any{"in_flight": inflight}, Expected: "the check completes", Actual: tail})
 }
